@@ -148,12 +148,23 @@ class SimFuture(_cf.Future):
     def _sim(self):
         return CTX.sim
 
+    def _done(self):
+        return _cf.Future.done(self)
+
+    def done(self):
+        # asking a future whether it is done is a pre-emption point: code that looks twice ("if f.done(): ...",
+        # then "[f for f in pending if not f.done()]") has a window in which a worker completes the future
+        sim = CTX.sim
+        if sim is not None and sim.current is not None and not sim.aborting and len(sim.threads) > 1:
+            sim.yield_point("fdone")
+        return _cf.Future.done(self)
+
     def result(self, timeout=None):
         sim = CTX.sim
-        if sim is None or self.done():
+        if sim is None or self._done():
             return super().result(timeout=0 if sim is not None else timeout)
         end = None if timeout is None else sim.now + timeout
-        while not self.done():
+        while not self._done():
             left = None if end is None else end - sim.now
             if left is not None and left <= 0:
                 raise _cf.TimeoutError()
@@ -162,7 +173,7 @@ class SimFuture(_cf.Future):
 
     def exception(self, timeout=None):
         sim = CTX.sim
-        if sim is not None and not self.done():
+        if sim is not None and not self._done():
             try:
                 self.result(timeout)
             except _cf.TimeoutError:
@@ -192,7 +203,7 @@ def sim_wait(fs, timeout=None, return_when=_cf.ALL_COMPLETED):
     end = None if timeout is None else sim.now + timeout
 
     def ready():
-        done = {f for f in fs if f.done()}
+        done = {f for f in fs if _cf.Future.done(f)}
         if len(done) == len(fs):
             return done
         if return_when == _cf.FIRST_COMPLETED and done:
@@ -209,7 +220,7 @@ def sim_wait(fs, timeout=None, return_when=_cf.ALL_COMPLETED):
             return DoneAndNotDone(d, fs - d)
         left = None if end is None else end - sim.now
         if left is not None and left <= 0:
-            d = {f for f in fs if f.done()}
+            d = {f for f in fs if _cf.Future.done(f)}
             return DoneAndNotDone(d, fs - d)
         sim.block(("futwait", fs), left)
 
